@@ -200,3 +200,26 @@ package sample
 //@   requires[slots-consistent] forall q int :: 0 <= q && q < len(d.distinctValue.values) ==> slotsConsistent(d.distinctValue.values[q])
 //@   ensures[each-distinct-value-is-counted] (forall a int, b int :: 0 <= a && a < b && b < len(values) ==> values[a] < values[b]) ==> fieldCount == old(fieldCount) + len(values)
 //@   loop 1 invariant[counted-so-far] (forall a int, b int :: 0 <= a && a < b && b < len(values) ==> values[a] < values[b]) ==> fieldCount == old(fieldCount) + iter && (iter > 0 ==> prevStr == values[iter - 1])
+
+// ---- C08: the rules sampler applies the FIRST rule, in configuration order, that matches the trace.
+// Whether one rule matches is decided by ruleMatchesTrace / ruleMatchesSpanInTrace (by scope); here they are
+// deterministic readings of (trace, rule, nested-fields flag) - their own semantics are not under contract.
+//@ assume sample.ruleMatchesTrace function
+//@ assume sample.ruleMatchesSpanInTrace function
+//@ assume config.(*RulesBasedSamplerRule).String getter
+//@ spec ruleApplies(t *types.Trace, r *config.RulesBasedSamplerRule, nested bool) bool := ite(r.Scope == "span", ruleMatchesSpanInTrace(t, r, nested), ite(r.Scope == "trace" || r.Scope == "", ruleMatchesTrace(t, r, nested), true))
+//@ contract sample.(*RulesBasedSampler).GetSampleRate props C08 havocheap
+//@   arith math
+//@   requires s != nil && s.Config != nil && trace != nil
+//@   requires[rules-present] forall j int :: 0 <= j && j < len(s.Config.Rules) ==> s.Config.Rules[j] != nil
+//@   let rules = s.Config.Rules
+//@   let nested = s.Config.CheckNestedFields
+//@   ensures[no-rule-matches-keeps-at-rate-one] (forall j int :: 0 <= j && j < len(rules) ==> !ruleApplies(trace, rules[j], nested)) ==> rate == 1 && keep && reason == "no rule matched" && key == ""
+//@   ensures[first-matching-drop-rule-drops] forall j int :: 0 <= j && j < len(rules) && ruleApplies(trace, rules[j], nested) && (forall k int :: 0 <= k && k < j ==> !ruleApplies(trace, rules[k], nested)) && rules[j].Sampler == nil && rules[j].Drop ==> !keep
+//@   ensures[first-matching-rate-rule-gives-its-rate] forall j int :: 0 <= j && j < len(rules) && ruleApplies(trace, rules[j], nested) && (forall k int :: 0 <= k && k < j ==> !ruleApplies(trace, rules[k], nested)) && rules[j].Sampler == nil && rules[j].SampleRate >= 1 ==> toInt(rate) == rules[j].SampleRate
+//@   ensures[rate-one-without-drop-always-keeps] forall j int :: 0 <= j && j < len(rules) && ruleApplies(trace, rules[j], nested) && (forall k int :: 0 <= k && k < j ==> !ruleApplies(trace, rules[k], nested)) && rules[j].Sampler == nil && rules[j].SampleRate == 1 && !rules[j].Drop ==> keep
+//@   ensures[a-non-positive-rate-never-keeps] forall j int :: 0 <= j && j < len(rules) && ruleApplies(trace, rules[j], nested) && (forall k int :: 0 <= k && k < j ==> !ruleApplies(trace, rules[k], nested)) && rules[j].Sampler == nil && rules[j].SampleRate <= 0 ==> !keep
+//@   ensures[first-matching-rule-with-a-missing-downstream-sampler-keeps] forall j int :: 0 <= j && j < len(rules) && ruleApplies(trace, rules[j], nested) && (forall k int :: 0 <= k && k < j ==> !ruleApplies(trace, rules[k], nested)) && rules[j].Sampler != nil && !in(s.samplers, rules[j].String()) ==> rate == 1 && keep
+//@   ensures[downstream-sampler-decides] forall j int :: 0 <= j && j < len(rules) && ruleApplies(trace, rules[j], nested) && (forall k int :: 0 <= k && k < j ==> !ruleApplies(trace, rules[k], nested)) && rules[j].Sampler != nil && in(s.samplers, rules[j].String()) ==> (forall q int :: q == toInt(refOf(s.samplers[rules[j].String()])) ==> askedN(q) == old(askedN(q)) + 1)
+//@   loop 1 invariant[earlier-rules-did-not-match] s != nil && s.Config != nil && s.Config.Rules == rules && s.Config.CheckNestedFields == nested && (forall k int :: 0 <= k && k < iter ==> !ruleApplies(trace, rules[k], nested)) && (forall q int :: askedN(q) == old(askedN(q)))
+//@   modifies all(askedN)
